@@ -20,7 +20,7 @@ GC = "verde.coordinates.grid_coordinates"
 
 def check(ctx):
     qn = QN
-    K.roles_rule(ctx, "R2", [qn, "verde.utils.kdtree"], with_return=True)
+    K.roles_rule(ctx, "R2", [qn, "verde.utils.kdtree"], with_return=True, require={qn: [{"tree-query"}, {"region-arg"}]})
     K.forwarding(ctx, "R1", qn, GC, {"spacing": ("param", "spacing"), "shape": ("param", "shape"), "adjust": ("param", "adjust")})
     K.literal_kw(ctx, "R1", qn, GC, "pixel_register", True, default=False)
     chk = ("call", ("glob", "verde.base.utils.check_coordinates"), (("param", "coordinates"),), (), 0)
